@@ -196,6 +196,12 @@ def run(sc):
             r.states.add(d)
     r.obs.append(outs)
     r.sim_time += n
+    # A second pastify() in the middle of the stream is a use no property specifies: the monitor may go on (what the unchanged tree
+    # does) or start a new episode there, like after reset() (what an independent behaviour-preserving rewrite, benign/B11, does).
+    # Both are accepted; anything else (an exception, values of neither continuation) is a violation. DESIGN 8.2, round l.
+    k_re = sc.get('repastify_at')
+    k_re = k_re if (k_re is not None and 0 < k_re < n) else None
+    restarted = False
     expected = []
     hh = int(h)
     # inside the region of the open finding F08 the comparison starts once the warm-up outputs have left every operator's
@@ -206,6 +212,16 @@ def run(sc):
         skip = n
     if skip:
         r.probes['compared_after_warmup_memory'] += 1
+    if k_re is not None:
+        # would the outputs from the second pastify() on be those of a monitor that starts a new episode there? (compared from the
+        # horizon and the warm-up memory of the NEW episode on; NaN equals NaN)
+        try:
+            mon_r = M.build(on_desc)
+            alt = [M.dt_update(mon_r, times[i], [(v, data[v][i]) for v in sc['vars']]) for i in range(k_re, n)]
+            restarted = all(M.num_eq(outs[j], alt[j - k_re]) or (outs[j] != outs[j] and alt[j - k_re] != alt[j - k_re])
+                            for j in range(k_re + hh + int(skip), n))
+        except M.ApiCrash:
+            restarted = False
     for i in range(hh + int(skip), n):
         pre = dict((v, data[v][:i + 1]) for v in data)
         try:
@@ -224,6 +240,9 @@ def run(sc):
         expected.append(want)
         r.evals += 1
         if not M.num_eq(outs[i], want):
+            if k_re is not None and i >= k_re and restarted:
+                r.probes['second_pastify_started_a_new_episode'] += 1
+                break
             side = 'online' if M.num_eq(want, ref[i - hh]) else ('offline' if M.num_eq(outs[i], ref[i - hh]) else 'both')
             r.violate('delayed-equals-offline', step=i, horizon=hh, spec=text, notation=notation, data=data,
                       online=outs[i], offline=want, ref=ref[i - hh], wrong_side=side)
@@ -233,7 +252,8 @@ def run(sc):
             mon2 = M.build(dict(on_desc, pastify=False))
             outs2 = [M.dt_update(mon2, times[i], [(v, data[v][i]) for v in sc['vars']]) for i in range(n)]
             r.evals += 1
-            if not M.list_eq(outs, outs2):
+            m_ = k_re if (restarted and k_re is not None and not M.list_eq(outs, outs2)) else n
+            if not M.list_eq(outs[:m_], outs2[:m_]):
                 r.violate('pastify-identity-without-future', spec=text, notation=notation, data=data, pastified=outs,
                           plain=outs2)
         except M.ApiCrash as e:
